@@ -54,6 +54,7 @@ def role_task(name, cls, critical=True, host=None, trigger=None, await_=None, ti
 
 
 def role_call(name, hook_id, trigger, await_=None, critical=True, timeout="5s", indent=2):
+    # (timeout: the call's declared timeout trait)
     sp = " " * indent
     y = "%s- name: \"%s\"\n%s  call:\n%s    func: verif.Probe('%s')\n%s    trigger: %s\n" % (sp, name, sp, sp, hook_id, sp, trigger)
     if await_:
